@@ -508,8 +508,12 @@ func (e *Exec) mergeValue(c *term.Term, a, b Value) (Value, bool) {
 			return nil, false
 		}
 		nv := make([]Value, len(x.Vals))
+		var np []*term.Term
+		if x.Present != nil || y.Present != nil {
+			np = make([]*term.Term, len(x.Keys))
+		}
 		for i := range x.Keys {
-			if !e.sameConcrete(x.Keys[i], y.Keys[i]) {
+			if x.Keys[i] != y.Keys[i] && !e.sameConcrete(x.Keys[i], y.Keys[i]) {
 				return nil, false
 			}
 			m, ok := e.mergeValue(c, x.Vals[i], y.Vals[i])
@@ -517,8 +521,18 @@ func (e *Exec) mergeValue(c *term.Term, a, b Value) (Value, bool) {
 				return nil, false
 			}
 			nv[i] = m
+			if np != nil {
+				px, py := e.ts.True, e.ts.True
+				if x.Present != nil {
+					px = x.Present[i]
+				}
+				if y.Present != nil {
+					py = y.Present[i]
+				}
+				np[i] = e.ts.Ite(c, px, py)
+			}
 		}
-		return &MapData{Keys: x.Keys, Vals: nv}, true
+		return &MapData{Keys: x.Keys, Vals: nv, Present: np}, true
 	case *IterData:
 		y, ok := b.(*IterData)
 		if ok && x.Pos == y.Pos && x.Map == y.Map && x.IsStr == y.IsStr && len(x.Keys) == len(y.Keys) && x.Str == y.Str {
